@@ -62,7 +62,7 @@ def RULE(tier):
         )
     return (
         "as quick, but P2 = EVERY program of <= 2 steps over the full alphabet x 12 configurations; P3 = every 3-step program core x core x full x 4 configurations; "
-        "D1 = every 1-step program and every (column, series step) program x EVERY partitioning into <= 4 partitions (120) x 5 index kinds; AL = all pairs of the 28 partitionings into <= 3 partitions."
+        "D1 = every 1-step program x EVERY partitioning into <= 4 partitions (120) x 5 index kinds and every (column, series step) program x the 120 partitionings (index kind rotating); AL = all pairs of the 28 partitionings into <= 3 partitions."
     )
 
 
@@ -130,8 +130,8 @@ def cases_of(shard, tier, seed, counters=None):
                 if len(prog) == 2 and prog[0][0] != "col":
                     continue  # thorough: also every (column, series step) program, so that every accessor member meets every partitioning
                 for pi, parts in enumerate(allparts):
-                    if tier == "quick" and pi % len(dfh.INDEX_KINDS) != ki:
-                        continue  # quick: every partitioning once, the index kind rotating over the partitionings
+                    if (tier == "quick" or len(prog) == 2) and pi % len(dfh.INDEX_KINDS) != ki:
+                        continue  # every partitioning once, the index kind rotating over the partitionings (thorough 1-step programs: all 5 kinds)
                     yield (fam, fname, kind, parts, "auto", prog), xs
     elif fam == "AL":
         plist = AL_PARTS_Q if tier == "quick" else dfh.partitionings(NROWS, 3)
@@ -244,7 +244,12 @@ def run_case(case, ctx, pxs=None):
             cls = "other:not-co-aligned"
         key = f"{op}:{status}:{cls}"
     else:
-        key = f"{P.sig(step)}:{status}:{known_class(step, status, pxs[k - 1]) or input_class(pxs[k - 1])}"
+        cls = known_class(step, status, pxs[k - 1])
+        if cls is None and k >= 2:
+            # every proper prefix passes: an INTERACTION of the last two steps (typically an optimizer rewrite); named by the pair
+            key = f"{P.sig(prog[k - 2])}>{P.sig(step)}:{status}:chain"
+        else:
+            key = f"{P.sig(step)}:{status}:{cls or input_class(pxs[k - 1])}"
     ctx.violation(key, case, f"step {k} of {len(prog)}: {detail}")
 
 
